@@ -129,8 +129,10 @@ def gen_cases(tier, seed):
             if len(ign) < (len(base["edges"]) if base["mode"] == "edge" else len(base["nodes"])):
                 c["ignore"] = gen.jl(ign)
                 for e in ign:
-                    g = rng.choice(["keep", "garbage", "missing", "zero"])
-                    if g == "garbage":
+                    g = rng.choice(["keep", "garbage", "missing", "zero", "small"])
+                    if g == "small":
+                        garbage[e] = 1 if base["wt"] == "int" else 0.5      # a stated value below what the paths through the ignored element carry
+                    elif g == "garbage":
                         garbage[e] = 77 if base["wt"] == "int" else 77.5
                     elif g == "missing":
                         drop.append(e)
@@ -155,6 +157,16 @@ def gen_cases(tier, seed):
             c["mag"] = mag
         c["spec"] = I.spec_of(base, drop_attr=drop, garbage=garbage, extra_eattr=extra)
         cases.append(c)
+    # corpus: two paths have to share an ignored middle edge whose own stated value is small; an ignored detour keeps every capacitated
+    # cover of the stated values feasible (a lower bound computed from the stated values of ignored edges would overshoot)
+    ig_ = [["a", "b"], ["a", "q"], ["q", "t3"], ["s3", "z"], ["z", "b"]]
+    for fl_ in ({("s1", "a"): 1, ("s2", "a"): 1, ("a", "b"): 1, ("a", "q"): 1, ("q", "t3"): 1, ("s3", "z"): 1, ("z", "b"): 1, ("b", "t1"): 1, ("b", "t2"): 1},
+                {("s1", "a"): 4, ("s2", "a"): 6, ("a", "b"): 1, ("a", "q"): 9, ("q", "t3"): 9, ("s3", "z"): 9, ("z", "b"): 9, ("b", "t1"): 4, ("b", "t2"): 6}):
+        for wt_ in ("int", "float"):
+            base_ = {"nodes": ["s1", "s2", "s3", "a", "b", "q", "z", "t1", "t2", "t3"], "edges": list(fl_), "flow": {e: (float(f) if wt_ == "float" else f) for e, f in fl_.items()},
+                     "planted": [], "wt": wt_, "mode": "edge"}
+            for oo_ in ({}, {"optimize_with_greedy": False}):
+                cases.append({"spec": I.spec_of(base_), "mode": "edge", "wt": wt_, "cons": [], "cov": 1.0, "ignore": ig_, "oo": oo_, "tag": "corpus-ignored-shared"})
     # corpus (thorough tier, seed 2): at magnitude 1e7 HiGHS' presolve declares the 3-path model infeasible (known finding, classified by re-solving)
     cases.append({"mode": "edge", "wt": "int", "cons": [[["2", "3"], ["3", "4"]]], "cov": 0.75, "ignore": [], "planted": 4, "mag": "1e6",
                   "oo": {"optimize_with_flow_safe_paths": False, "optimize_with_safe_paths": False, "optimize_with_safe_sequences": True, "optimize_with_greedy": False},
